@@ -321,6 +321,149 @@ pub fn group_alphabet(o: &Opts) -> Vec<Tok> {
     alphabet_for(G::Point2)
 }
 
+// ------------------------------------------------------------------------------------------
+// family B: an adjacent command whose sub-parser holds an adjacent group, beside a top-level
+// switch: blocks inside blocks
+// ------------------------------------------------------------------------------------------
+#[derive(Clone, Copy, Debug, Serialize, Deserialize)]
+pub struct NestDef {
+    pub cmd_wrap: W,
+    pub two_values: bool,
+    pub inner_switch: bool,
+    pub len: usize,
+}
+pub fn nest_opts(d: &NestDef) -> Opts {
+    let pos = |m: &str| P::Pos { ty: Ty::Os, strict: Strict::Any, metavar: m.into(), help: None };
+    let mut members = vec![P::ReqFlag(Names::long("point")), pos("X")];
+    if d.two_values {
+        members.push(pos("Y"));
+    }
+    let mut inner = vec![];
+    if d.inner_switch {
+        inner.push(P::Switch(Names::short('x')));
+    }
+    inner.push(P::Adj(members).many());
+    let cmd = P::Cmd { name: "cmd".into(), shorts: vec![], longs: vec![], inner: Box::new(Opts::new(P::Seq(inner))), adjacent: true, help: None };
+    let cw = match d.cmd_wrap {
+        W::Bare => cmd,
+        W::Opt => cmd.opt(),
+        W::Many => cmd.many(),
+    };
+    Opts::new(P::Seq(vec![P::Switch(Names::short('v')), cw]))
+}
+pub fn nest_alphabet(d: &NestDef) -> Vec<Tok> {
+    let mut a = toks(&["cmd", "--point", "1", "2", "-v"]);
+    if d.inner_switch {
+        a.push(Tok::s("-x"));
+    }
+    a
+}
+/// block scanner: `-v` belongs to the top level (once); `cmd` starts a command block made of
+/// the contiguous run of `-x` (once) and `--point X [Y]` blocks that follows it
+pub fn nest_model(d: &NestDef, argv: &[Tok]) -> Option<Val> {
+    let mut v = 0;
+    let mut blocks: Vec<Val> = vec![];
+    let mut i = 0;
+    // a positional member takes any plain word, the command's own name included
+    let is_val = |t: &Tok| is_word(t);
+    while i < argv.len() {
+        let t = &argv[i];
+        if t.0 == b"-v" {
+            v += 1;
+            i += 1;
+            continue;
+        }
+        if t.0 == b"cmd" {
+            i += 1;
+            let mut x = 0;
+            let mut points: Vec<Val> = vec![];
+            loop {
+                if i < argv.len() && d.inner_switch && argv[i].0 == b"-x" && x == 0 {
+                    x += 1;
+                    i += 1;
+                    continue;
+                }
+                if i < argv.len() && argv[i].0 == b"--point" {
+                    let n = if d.two_values { 2 } else { 1 };
+                    let mut vals = vec![Val::B(true)];
+                    for k in 0..n {
+                        match argv.get(i + 1 + k) {
+                            Some(w) if is_val(w) => vals.push(Val::S(w.clone())),
+                            _ => return None,
+                        }
+                    }
+                    points.push(Val::T(vals));
+                    i += 1 + n;
+                    continue;
+                }
+                break;
+            }
+            let mut fields = vec![];
+            if d.inner_switch {
+                fields.push(Val::B(x == 1));
+            }
+            fields.push(Val::L(points));
+            blocks.push(Val::Cmd("cmd".into(), Box::new(Val::T(fields))));
+            continue;
+        }
+        return None;
+    }
+    if v > 1 {
+        return None;
+    }
+    let cw = match d.cmd_wrap {
+        W::Bare => {
+            if blocks.len() != 1 {
+                return None;
+            }
+            blocks.pop().unwrap()
+        }
+        W::Opt => match blocks.len() {
+            0 => Val::No,
+            1 => Val::some(blocks.pop().unwrap()),
+            _ => return None,
+        },
+        W::Many => Val::L(blocks),
+    };
+    Some(Val::T(vec![Val::B(v == 1), cw]))
+}
+
+fn judge_nest(d: &NestDef, unit: &Value, p: &bpaf::OptionParser<Val>, argv: &[Tok], ctx: &mut Ctx) {
+    let m = nest_model(d, argv);
+    let r = run(p, argv);
+    let ok = match (&m, &r) {
+        (Some(a), Outcome::Value(b)) => a == b,
+        (None, Outcome::Stderr(t)) => !t.trim().is_empty(),
+        _ => false,
+    };
+    if ok {
+        ctx.s.validated += 1;
+        ctx.count(if m.is_some() { "nested-accepted" } else { "nested-rejected" });
+        if argv.iter().any(|t| t.0 == b"cmd") {
+            ctx.s.nontrivial += 1;
+        }
+        return;
+    }
+    let mut sig = BTreeMap::new();
+    sig.insert("group".to_string(), "nested-in-adjacent-command".to_string());
+    sig.insert("wrap".to_string(), format!("{:?}", d.cmd_wrap));
+    sig.insert("model".to_string(), if m.is_some() { "accept" } else { "reject" }.to_string());
+    sig.insert("observed".to_string(), r.class().to_string());
+    ctx.violation(Violation {
+        property: "C19".into(),
+        rule: if m.is_some() { "contiguous-blocks-accepted-with-block-values" } else { "interrupted-or-short-block-fails" }.into(),
+        sig,
+        unit: unit.clone(),
+        case: json!({"argv": argv}),
+        expected: match &m {
+            Some(v) => format!("value {:?}", v),
+            None => "stderr failure".into(),
+        },
+        observed: r.brief(),
+        size: argv.len() * 1000,
+    });
+}
+
 fn judge(d: &Def, unit: &Value, p: &bpaf::OptionParser<Val>, argv: &[Tok], ctx: &mut Ctx) {
     let m = model(d, argv);
     let r = run(p, argv);
@@ -386,9 +529,35 @@ impl Check for C19 {
             serde_json::to_value(d).unwrap()
         }).collect();
         out.sort_by_key(|v| v.to_string());
+        for cmd_wrap in [W::Bare, W::Opt, W::Many] {
+            for two_values in [false, true] {
+                for inner_switch in [false, true] {
+                    out.push(json!({"nest": NestDef { cmd_wrap, two_values, inner_switch, len: tier.pick(6, 7) }}));
+                }
+            }
+        }
         out
     }
     fn run_unit(&self, unit: &Value, ctx: &mut Ctx) {
+        if let Some(n) = unit.get("nest") {
+            let d: NestDef = serde_json::from_value(n.clone()).unwrap();
+            let p = match build_checked(&nest_opts(&d)) {
+                Ok(p) => p,
+                Err(_) => return,
+            };
+            let alpha = nest_alphabet(&d);
+            tree(&alpha, d.len, &mut |argv| {
+                ctx.begin_case(|| json!({"argv": argv}));
+                ctx.s.evaluations += 1;
+                ctx.s.states += 1;
+                if !argv.is_empty() {
+                    ctx.s.transitions += 1;
+                }
+                judge_nest(&d, unit, &p, argv, ctx);
+                true
+            });
+            return;
+        }
         let d: Def = serde_json::from_value(unit.clone()).unwrap();
         let p = match build_checked(&to_opts(&d)) {
             Ok(p) => p,
@@ -407,6 +576,15 @@ impl Check for C19 {
         });
     }
     fn replay(&self, unit: &Value, case: &Value, ctx: &mut Ctx) {
+        if let Some(n) = unit.get("nest") {
+            let d: NestDef = serde_json::from_value(n.clone()).unwrap();
+            let argv: Vec<Tok> = serde_json::from_value(case["argv"].clone()).unwrap_or_default();
+            if let Ok(p) = build_checked(&nest_opts(&d)) {
+                ctx.s.evaluations += 1;
+                judge_nest(&d, unit, &p, &argv, ctx);
+            }
+            return;
+        }
         let d: Def = serde_json::from_value(unit.clone()).unwrap();
         let argv: Vec<Tok> = serde_json::from_value(case["argv"].clone()).unwrap_or_default();
         if let Ok(p) = build_checked(&to_opts(&d)) {
@@ -415,7 +593,7 @@ impl Check for C19 {
         }
     }
     fn rule(&self) -> String {
-        "definitions = {--point X | X Y | X Y Z, --point --w W --h H [--o], --point --w W X} x {bare, optional, many} x {no, optional, repeated trailing positional} x {neighbouring switch absent, declared before, declared after}; every vector of the token tree over 6-8 tokens (leading flag, members, inline member, words, foreign -v / --zz, `--`); each node judged by the block scanner (a block = leading flag + contiguous members; one value per block; everything else belongs to the surrounding level); state = (definition, vector), transition = append token; non-trivial = judged vector containing the group's leading flag".into()
+        "definitions = {--point X | X Y | X Y Z, --point --w W --h H [--o], --point --w W X} x {bare, optional, many} x {no, optional, repeated trailing positional} x {neighbouring switch absent, declared before, declared after}; plus blocks inside blocks: an adjacent command (bare / optional / many) whose sub-parser holds a repeated adjacent group --point X [Y] (and optionally its own switch) beside a top-level switch, all vectors of length <= 6-7 over {cmd, --point, 1, 2, -v, -x}; every vector of the token tree over 6-8 tokens (leading flag, members, inline member, words, foreign -v / --zz, `--`); each node judged by the block scanner (a block = leading flag + contiguous members; one value per block; everything else belongs to the surrounding level); state = (definition, vector), transition = append token; non-trivial = judged vector containing the group's leading flag".into()
     }
     fn bounds(&self, tier: Tier) -> Value {
         json!({"vector_length": tier.pick("5 (4 for the 4-member option-struct)", "6 (7 for --point X Y Z)"), "blocks": "0..3 per line within that length"})
